@@ -134,7 +134,7 @@ def c17_stat_checks(G, M, emit):
 
     agrees = all(bool(G.has_interaction(k[0], k[1], q)) == (q in S) for k, S in pres.items() for q in range(T[0] - 1, T[-1] + 2))
 
-    def ratio(name, args, num, den, what):
+    def ratio(name, args, num, den, what, alt=None):
         if den == 0:
             return                      # the measure's own denominator vanishes: outside the quantifier
         exp = Fraction(num, den)
@@ -147,7 +147,8 @@ def c17_stat_checks(G, M, emit):
             oor = _num(got) and not (0 <= got <= 1)
             emit('C17.%s' % name, '%s%r = %r, definition %s = %d/%d = %.6f%s' % (name, tuple(args), got, what, num, den, float(exp), ' (returned value outside [0,1])' if oor else ''),
                  measure=name, args=list(args), got=got if _num(got) else repr(got), expected=str(exp), out_of_range=bool(oor),
-                 presence_agrees_with_model=agrees)
+                 presence_agrees_with_model=agrees,
+                 d24=bool(name == 'node_density' and alt is not None and _num(got) and abs(float(got) - float(alt)) <= TOL))
 
     pairs = list(itertools.combinations(V, 2))
     ratio('coverage', (), sum(len(Vt[t]) for t in T), len(T) * len(V), 'sum_t|V_t| / (|T||V|)')
@@ -156,8 +157,9 @@ def c17_stat_checks(G, M, emit):
     ratio('density', (), sum(len(Tuv(u, v)) for u, v in pairs), sum(len(Tu[u] & Tu[v]) for u, v in pairs), 'sum|T_uv| / sum|T_u&T_v|')
     for u in V:
         ratio('node_contribution', (u,), len(Tu[u]), len(T), '|T_u|/|T|')
-        ratio('node_density', (u,), sum(len(Tuv(u, v)) for v in V if v != u), sum(len(Tu[u] & Tu[v]) for v in V if v != u),
-              'sum_{v!=u}|T_uv| / sum_{v!=u}|T_u&T_v|')
+        nd_num = sum(len(Tuv(u, v)) for v in V if v != u)
+        ratio('node_density', (u,), nd_num, sum(len(Tu[u] & Tu[v]) for v in V if v != u), 'sum_{v!=u}|T_uv| / sum_{v!=u}|T_u&T_v|',
+              alt=Fraction(nd_num, sum(len(Tu[u] & Tu[v]) for v in V)) if Tu[u] else None)   # value under finding D24 alone
         st, got = _call(G.node_presence, u)
         if st == 'exc' or not isinstance(got, (set, frozenset)) or set(got) != Tu[u]:
             emit('C17.node_presence', 'node_presence(%r) = %r, T_u = %r' % (u, got, sorted(Tu[u])), measure='node_presence', args=[u],
@@ -212,19 +214,9 @@ def c17_iet_checks(G, M, emit):
     def pair(name, args, readings):
         """pair form: the text names only 'global, per node, in/out variants'; only mass / weighted-sum sanity, and any of the
         plausible restrictions of the stream is accepted"""
-        s, got = _call(getattr(G, name), *args)
-        evs = [_iet_expect(st, keep)[1] for keep in readings]
-        if s == 'exc':
-            emit('C17.%s.pair_form.raises' % name, '%s%r raises %s(%s); the pair has %d stream events (an empty or %d-mass histogram expected)'
-                 % (name, tuple(args), got.__class__.__name__, got, len(evs[0]), max(0, len(evs[0]) - 1)), measure=name, args=list(args),
-                 strength='pair form is not named in the property text: sanity check only', stream=_j(st))
-        elif not any(_sane(got, ev) for ev in evs):
-            ev = evs[0]
-            emit('C17.%s.pair_form.sanity' % name,
-                 '%s%r = %r: total mass / weighted sum do not match the %d events %r of the pair in the stream (mass %d, weighted sum %d expected)'
-                 % (name, tuple(args), got, len(ev), ev, max(0, len(ev) - 1), (ev[-1][3] - ev[0][3]) if ev else 0), measure=name, args=list(args),
-                 got=sorted(got.items()) if isinstance(got, dict) else repr(got),
-                 strength='pair form is not named in the property text: sanity check only', stream=_j(st))
+        # The (u, v) form reads the pair's timeline, not the stream, and C17 does not name it: nothing is demanded of it
+        # here (a check on it would ask for more than the property states).  It is still called, so that it is exercised.
+        _call(getattr(G, name), *args)
 
     names = ['inter_event_time_distribution'] + (['inter_in_event_time_distribution', 'inter_out_event_time_distribution'] if directed else [])
     for name in names:
@@ -523,9 +515,10 @@ def check_blocked(G, name, kind, args, kwargs):
         out.append(('C19.blocked.%s.does_not_raise' % name, 'returned %r instead of raising NetworkXNotImplemented' % (r,)))
     elif not isinstance(r, nx.NetworkXNotImplemented):
         out.append(('C19.blocked.%s.wrong_exception' % name, 'raises %s(%s) instead of NetworkXNotImplemented' % (r.__class__.__name__, r)))
-    if after != before:
-        tag = 'nodes_only' if _only_nodes_changed(before, after) else 'interactions'
-        out.append(('C19.blocked.%s.state_changed.%s' % (name, tag), 'state changed: ' + _diff(before, after)))
+    if after != before and not _only_nodes_changed(before, after):
+        # C19 asks that every interaction, timeline, snapshot id and stream event stay untouched; a node created before
+        # the blocked step (networkx update(nodes=..., edges=...) adds the nodes first) is not part of that statement
+        out.append(('C19.blocked.%s.state_changed.interactions' % name, 'state changed: ' + _diff(before, after)))
     return out
 
 
